@@ -412,7 +412,7 @@ func runHistory(c *run.Ctx, h []attempt, cc configCase, pending int) {
 				if a.Kind == "connack-refused" {
 					if !mqtt.IsConnectionRefused(last.Err) {
 						c.Violate("refusal-not-classified", fmt.Sprintf("attempt %d: return code %d gave %q, not IsConnectionRefused", ai, a.Arg, last.Err), detail())
-					} else if want := fmt.Sprint(a.Arg); a.Arg > 5 && !strings.Contains(last.Err.Error(), want) {
+					} else if want := fmt.Sprint(a.Arg); a.Arg > 5 && !strings.Contains(last.Err.Error(), want) && !strings.Contains(strings.ToLower(last.Err.Error()), fmt.Sprintf("%x", a.Arg)) {
 						c.Violate("refusal-code-lost", fmt.Sprintf("attempt %d: return code %d not in %q", ai, a.Arg, last.Err), detail())
 					}
 				} else if mqtt.IsConnectionRefused(last.Err) {
